@@ -239,6 +239,50 @@ func batch(faults int, n int, generic bool) {
 	vsym.Assert("B3-signings-equal-releases", len(e.log.Signs) >= nSucceeded)
 }
 
+// rulesBatch: the rules service's batch entry point called directly (as the ruler does for n > 1, and as any
+// other caller of the exported rules.Service may for n = 1) under injected faults: a position is APPROVED only
+// if its approval is in the store when the directory is reopened.
+func rulesBatch(faults int, n int) {
+	ctx := context.Background()
+	e := setup(ctx, 0, 0x02)
+	vsym.SetGOMAXPROCS(1)
+	var md []*rules.ReqMetadata
+	var data []*rules.SignBeaconAttestationData
+	for k := 0; k < n; k++ {
+		md = append(md, &rules.ReqMetadata{Account: []string{"a", "b", "c"}[k], PubKey: hc.Keys[k][:], Client: "c"})
+		data = append(data, att(uint64(5+k), uint64(10+k)))
+	}
+	vsym.SetFaults(faults)
+	res := e.in.Rules.OnSignBeaconAttestations(ctx, md, data)
+	vsym.SetFaults(0)
+	vsym.Assert("RB0-one-verdict-per-entry", len(res) == n)
+	approved := 0
+	for k := range res {
+		vsym.Out(fmt.Sprintf("res%d", k), int(res[k]))
+		if res[k] == rules.APPROVED {
+			approved++
+		}
+	}
+	if approved == 0 {
+		vsym.Reach("nothing-approved")
+		return
+	}
+	vsym.Reach("approved")
+	ex := hc.ReopenAndExport(ctx, e.in.Rules, e.dir)
+	for k := range res {
+		if res[k] == rules.APPROVED && k < n {
+			S, T, _ := hc.Exported(ex, hc.Keys[k])
+			vsym.Assert(fmt.Sprintf("RB1-approval-recorded-before-the-verdict[%d]", k), vsym.And(S == int64(5+k), T == int64(10+k)))
+		}
+	}
+}
+
+func RulesBatch1F1() { rulesBatch(1, 1) }
+func RulesBatch2F1() { rulesBatch(1, 2) }
+func RulesBatch1F2() { rulesBatch(2, 1) }
+
+func BatchAttest1F1()  { batch(1, 1, false) }
+func BatchGeneric1F1() { batch(1, 1, true) }
 func BatchAttest2F1()  { batch(1, 2, false) }
 func BatchAttest3F1()  { batch(1, 3, false) }
 func BatchAttest2F2()  { batch(2, 2, false) }
